@@ -440,32 +440,28 @@ func (c *ClientConn) Closing(err error) {
 	c.pending.closing(err)
 }
 
-func (c *ClientConn) addToPending(request Request) (int16, error) {
+func (c *ClientConn) Send(request Request) error {
+	// The lock is held until the request is either queued for writing or removed from pending again: `Closing()` must
+	// not notify a request whose send failed, because its caller has already moved on to another host.
 	c.closingMu.RLock()
 	defer c.closingMu.RUnlock()
 	if c.closing {
-		return 0, Closed
+		return Closed
 	}
 	stream := c.pending.store(request)
 	if stream < 0 {
-		return 0, StreamsExhausted
-	}
-	return stream, nil
-}
-
-func (c *ClientConn) Send(request Request) error {
-	stream, err := c.addToPending(request)
-	if err != nil {
-		return err
+		return StreamsExhausted
 	}
 
-	err = c.conn.Write(&requestSender{
+	err := c.conn.Write(&requestSender{
 		request: request,
 		stream:  stream,
 		conn:    c,
 	})
 	if err == nil {
 		atomic.AddInt32(&c.inflight, 1)
+	} else {
+		c.pending.loadAndDelete(stream)
 	}
 	return err
 }
